@@ -1,4 +1,7 @@
-(* Plugin family "crypto": Gallina models of bandit plugins; definitions only (proofs go to Proofs/). *)
+(* Plugin family "crypto": Gallina models of bandit plugins; definitions only (proofs go to Proofs/).
+   B324 hashlib, B505 weak_cryptographic_key, B502/B503/B504 insecure_ssl_tls, B501
+   request_with_no_cert_validation, B113 request_without_timeout, B507 ssh_no_host_key_verification,
+   B508/B509 snmp_security_check. *)
 From Coq Require Import List NArith ZArith Bool String.
 From Bandit Require Import Base.PyStr Ast.Node Engine.Types Engine.Resolve Engine.Context Engine.Linerange
      Engine.Scan Regex.Regex.
@@ -6,4 +9,579 @@ Import ListNotations.
 Local Open Scope string_scope.
 Local Open Scope list_scope.
 
-Definition crypto_plugins : list plugin := [].
+(* ------------------------------------------------------------------------------------------------ *)
+(* Python value helpers                                                                              *)
+(* ------------------------------------------------------------------------------------------------ *)
+
+(* bool(v) *)
+Definition truthy (v : pyval) : bool :=
+  match v with
+  | PNone => false
+  | PInt z => negb (Z.eqb z 0)
+  | PFloat _ t | PComplex _ t => t
+  | PStr s => truthy_str s
+  | PBytes b => match b with [] => false | _ => true end
+  | PList l | PTuple l | PSet l => match l with [] => false | _ => true end
+  | PDict kv => match kv with [] => false | _ => true end
+  end.
+
+Definition ascii_upper (c : N) : N := if (97 <=? c)%N && (c <=? 122)%N then (c - 32)%N else c.
+Definition lower (s : pstr) : pstr := map ascii_lower s.
+Definition upper (s : pstr) : pstr := map ascii_upper s.
+
+(* The decimal value of a float literal's repr ("2048.0", "1e+22", "1.5e-05", "inf"): Some (m, e) stands
+   for m * 10^e, None for inf.  Float literals are never negative (a sign is a UnaryOp). *)
+Fixpoint take_digits (s : pstr) (acc : Z) (n : Z) : Z * Z * pstr :=
+  match s with
+  | c :: s' => if is_digit c then take_digits s' (acc * 10 + Z.of_N (c - 48))%Z (n + 1)%Z
+               else (acc, n, s)
+  | [] => (acc, n, [])
+  end.
+Definition dec_exponent (s : pstr) : option Z :=
+  match s with
+  | [] => Some 0%Z
+  | 101%N :: 43%N :: ds => let '(e, _, _) := take_digits ds 0%Z 0%Z in Some e
+  | 101%N :: 45%N :: ds => let '(e, _, _) := take_digits ds 0%Z 0%Z in Some (- e)%Z
+  | _ => None
+  end.
+Definition float_dec (r : pstr) : option (Z * Z) :=
+  let '(m1, _, rest1) := take_digits r 0%Z 0%Z in
+  match rest1 with
+  | 46%N :: rest =>
+      let '(m2, nf, rest2) := take_digits rest m1 0%Z in
+      option_map (fun e => (m2, (e - nf)%Z)) (dec_exponent rest2)
+  | _ => option_map (fun e => (m1, e)) (dec_exponent rest1)
+  end.
+Definition dec_ltb_Z (d : Z * Z) (s : Z) : bool :=
+  let (m, e) := d in
+  if (0 <=? e)%Z then (m * 10 ^ e <? s)%Z else (m <? s * 10 ^ (- e))%Z.
+Definition dec_eqb_Z (d : Z * Z) (s : Z) : bool :=
+  let (m, e) := d in
+  if (0 <=? e)%Z then (m * 10 ^ e =? s)%Z else (m =? s * 10 ^ (- e))%Z.
+(* float < int and float == int (exact whenever |s| <= 2^53, see the report) *)
+Definition float_ltb_Z (r : pstr) (s : Z) : bool :=
+  match float_dec r with Some d => dec_ltb_Z d s | None => false end.
+Definition float_eqb_Z (r : pstr) (s : Z) : bool :=
+  match float_dec r with Some d => dec_eqb_Z d s | None => false end.
+
+(* configuration values that behave as numbers: int, and bool (True == 1) *)
+Definition thr_num (j : jv) : option Z :=
+  match j with
+  | JInt z => Some z
+  | JBool b => Some (if b then 1%Z else 0%Z)
+  | _ => None
+  end.
+
+(* literal_value == int constant (B508 compares with 0 and 1; 0.0 == 0, 0j == 0, 1.0 == 1) *)
+Definition pv_eq_Z (v : pyval) (z : Z) : bool :=
+  match v with
+  | PInt x => Z.eqb x z
+  | PFloat r _ => float_eqb_Z r z
+  | PComplex _ t => negb t && Z.eqb z 0     (* an imaginary literal is real only when it is 0j *)
+  | _ => false
+  end.
+
+(* literal_value == configuration value *)
+Fixpoint pv_eq_jv (v : pyval) (j : jv) : bool :=
+  match v, j with
+  | PNone, JNull => true
+  | PStr s, JStr s' => pstr_eqb s s'
+  | PList l, JList l' =>
+      (fix go (l1 : list pyval) (l2 : list jv) : bool :=
+         match l1, l2 with
+         | [], [] => true
+         | u :: l1', w :: l2' => pv_eq_jv u w && go l1' l2'
+         | _, _ => false
+         end) l l'
+  | PDict [], JDict [] => true
+  | (PInt _ | PFloat _ _ | PComplex _ _), (JInt _ | JBool _) =>
+      match thr_num j with Some z => pv_eq_Z v z | None => false end
+  | _, _ => false
+  end.
+
+(* config[k] *)
+Definition cfg_item (cfg : jv) (k : pstr) : res jv :=
+  match cfg with
+  | JDict kv => match assoc k kv with Some v => Ok v | None => Raise KeyError end
+  | _ => Raise TypeError
+  end.
+
+(* keywords.get(k, d) on the call_keywords dictionary (None has no .get) *)
+Definition kw_get_default (kws : option (list (option pstr * pyval))) (k : pstr) (d : pyval) : res pyval :=
+  match kws with
+  | Some l => Ok (match kw_lookup k l with Some v => v | None => d end)
+  | None => Raise AttributeError
+  end.
+
+(* context.node.lineno *)
+Definition node_lineno (c : ctx) : res Z :=
+  match lineno_of (c_node c) with Some l => Ok l | None => Raise AttributeError end.
+
+(* check_call_arg_value(...) used as a condition: only True is truthy *)
+Definition is_true (o : option bool) : bool := match o with Some true => true | _ => false end.
+Definition is_none (o : option bool) : bool := match o with None => true | _ => false end.
+
+Definition qual_is (c : ctx) (q : pstr) : bool :=
+  match c_qualname c with Some x => pstr_eqb x q | None => false end.
+Definition name_in (c : ctx) (l : list pstr) : bool :=
+  match c_name c with Some n => mem_pstr n l | None => false end.
+
+(* ------------------------------------------------------------------------------------------------ *)
+(* B324 hashlib                                                                                      *)
+(* ------------------------------------------------------------------------------------------------ *)
+
+Definition weak_hashes : list pstr := [s2p "md4"; s2p "md5"; s2p "sha"; s2p "sha1"].
+Definition weak_crypt_hashes : list pstr := [s2p "METHOD_CRYPT"; s2p "METHOD_MD5"; s2p "METHOD_BLOWFISH"].
+
+Definition hash_issue (name_upper : pstr) (l : Z) : rissue :=
+  RIssue HIGH HIGH 327
+         (s2p "Use of weak " ++ name_upper ++ s2p " hash for security. Consider usedforsecurity=False")
+         (Some l) None None None.
+Definition crypt_issue (name_upper : pstr) (l : Z) : rissue :=
+  RIssue MEDIUM HIGH 327
+         (s2p "Use of insecure crypt." ++ name_upper ++ s2p " hash function.")
+         (Some l) None None None.
+
+(* keywords.get("usedforsecurity", "True") == "True" *)
+Definition used_for_security (kws : option (list (option pstr * pyval))) : res bool :=
+  do v <- kw_get_default kws (s2p "usedforsecurity") (PStr (s2p "True"));;
+  Ok (pyval_eqb v (PStr (s2p "True"))).
+
+Definition report_weak_hash (c : ctx) (kws : option (list (option pstr * pyval))) (name : pstr)
+  : res (option rissue) :=
+  do u <- used_for_security kws;;
+  if u then do l <- node_lineno c;; Ok (Some (hash_issue (upper name) l)) else Ok None.
+
+(* name = args[0] if args else keywords.get("name", None) *)
+Definition hash_new_name (args : list pyval) (kws : option (list (option pstr * pyval))) : res pyval :=
+  match args with
+  | a :: _ => Ok a
+  | [] => kw_get_default kws (s2p "name") PNone
+  end.
+
+Definition is_weak_hash_name (v : pyval) : bool :=
+  match v with PStr s => mem_pstr (lower s) weak_hashes | _ => false end.
+
+Definition hashlib_func (c : ctx) (func : pstr) : res (option rissue) :=
+  do kws <- call_keywords c;;
+  if mem_pstr func weak_hashes then report_weak_hash c kws func
+  else if pstr_eqb func (s2p "new") then
+    do args <- call_args c;;
+    do name <- hash_new_name args kws;;
+    match name with
+    | PStr s => if mem_pstr (lower s) weak_hashes then report_weak_hash c kws s else Ok None
+    | _ => Ok None
+    end
+  else Ok None.
+
+Definition report_weak_crypt (c : ctx) (name : pyval) : res (option rissue) :=
+  match name with
+  | PStr s => if mem_pstr s weak_crypt_hashes
+              then do l <- node_lineno c;; Ok (Some (crypt_issue (upper s) l))
+              else Ok None
+  | _ => Ok None
+  end.
+
+Definition crypt_crypt (c : ctx) (func : pstr) : res (option rissue) :=
+  do args <- call_args c;;
+  do kws <- call_keywords c;;
+  if pstr_eqb func (s2p "crypt") then
+    do name <- match args with
+               | _ :: a :: _ => Ok a
+               | _ => kw_get_default kws (s2p "salt") PNone
+               end;;
+    report_weak_crypt c name
+  else if pstr_eqb func (s2p "mksalt") then
+    do name <- match args with
+               | a :: _ => Ok a
+               | [] => kw_get_default kws (s2p "method") PNone
+               end;;
+    report_weak_crypt c name
+  else Ok None.
+
+Definition hashlib (c : ctx) : res (option rissue) :=
+  match c_qualname c with
+  | None => Ok None
+  | Some q =>
+      let ql := split_on dot q in
+      let func := last ql [] in
+      if mem_pstr (s2p "hashlib") ql then hashlib_func c func
+      else if mem_pstr (s2p "crypt") ql && mem_pstr func [s2p "crypt"; s2p "mksalt"]
+      then crypt_crypt c func
+      else Ok None
+  end.
+
+(* ------------------------------------------------------------------------------------------------ *)
+(* B505 weak_cryptographic_key                                                                       *)
+(* ------------------------------------------------------------------------------------------------ *)
+
+Inductive key_type := DSA | RSA | EC.
+Definition kt_name (k : key_type) : pstr :=
+  match k with DSA => s2p "DSA" | RSA => s2p "RSA" | EC => s2p "EC" end.
+
+Definition weak_key_default_cfg : jv :=
+  JDict [(s2p "weak_key_size_dsa_high", JInt 1024); (s2p "weak_key_size_dsa_medium", JInt 2048);
+         (s2p "weak_key_size_rsa_high", JInt 1024); (s2p "weak_key_size_rsa_medium", JInt 2048);
+         (s2p "weak_key_size_ec_high", JInt 160); (s2p "weak_key_size_ec_medium", JInt 224)].
+
+(* the key_sizes dictionary is built in full (six config look-ups) before it is indexed *)
+Definition thresholds (cfg : jv) (kt : key_type) : res (jv * jv) :=
+  do dh <- cfg_item cfg (s2p "weak_key_size_dsa_high");;
+  do dm <- cfg_item cfg (s2p "weak_key_size_dsa_medium");;
+  do rh <- cfg_item cfg (s2p "weak_key_size_rsa_high");;
+  do rm <- cfg_item cfg (s2p "weak_key_size_rsa_medium");;
+  do eh <- cfg_item cfg (s2p "weak_key_size_ec_high");;
+  do em <- cfg_item cfg (s2p "weak_key_size_ec_medium");;
+  Ok (match kt with DSA => (dh, dm) | RSA => (rh, rm) | EC => (eh, em) end).
+
+(* key_size < size, for a key_size that is not a str.
+   UNMODELLED: a list-valued key size against a list-valued threshold (Python compares the lists);
+   every other combination with a non-numeric threshold raises TypeError as modelled. *)
+Definition lt_threshold (k : pyval) (size : jv) : res bool :=
+  match thr_num size with
+  | Some s =>
+      match k with
+      | PInt z => Ok (z <? s)%Z
+      | PFloat r _ => Ok (float_ltb_Z r s)
+      | _ => Raise TypeError
+      end
+  | None => Raise TypeError
+  end.
+
+Definition key_issue (kt : key_type) (lvl : rank) (size : jv) : rissue :=
+  RIssue lvl HIGH 326
+         (kt_name kt ++ s2p " key sizes below "
+          ++ str_of_Z (match thr_num size with Some s => s | None => 0%Z end)
+          ++ s2p " bits are considered breakable. ")
+         None None None None.
+
+Definition classify_key_size (cfg : jv) (kt : key_type) (k : pyval) : res (option rissue) :=
+  match k with
+  | PStr _ => Ok None
+  | _ =>
+      do th <- thresholds cfg kt;;
+      do b <- lt_threshold k (fst th);;
+      if b then Ok (Some (key_issue kt HIGH (fst th)))
+      else do b2 <- lt_threshold k (snd th);;
+           if b2 then Ok (Some (key_issue kt MEDIUM (snd th))) else Ok None
+  end.
+
+(* get_call_arg_value(kw) or get_call_arg_at_position(pos) or 2048 *)
+Definition key_size_of (c : ctx) (kw : pstr) (pos : nat) : res pyval :=
+  do a <- get_call_arg_value c kw;;
+  if truthy a then Ok a
+  else do b <- get_call_arg_at_position c pos;;
+       if truthy b then Ok b else Ok (PInt 2048).
+
+(* written once, as data *)
+Definition curve_key_sizes : list (pstr * Z) :=
+  [(s2p "SECT571K1", 571%Z); (s2p "SECT571R1", 570%Z); (s2p "SECP521R1", 521%Z);
+   (s2p "BrainpoolP512R1", 512%Z); (s2p "SECT409K1", 409%Z); (s2p "SECT409R1", 409%Z);
+   (s2p "BrainpoolP384R1", 384%Z); (s2p "SECP384R1", 384%Z); (s2p "SECT283K1", 283%Z);
+   (s2p "SECT283R1", 283%Z); (s2p "BrainpoolP256R1", 256%Z); (s2p "SECP256K1", 256%Z);
+   (s2p "SECP256R1", 256%Z); (s2p "SECT233K1", 233%Z); (s2p "SECT233R1", 233%Z);
+   (s2p "SECP224R1", 224%Z); (s2p "SECP192R1", 192%Z); (s2p "SECT163K1", 163%Z);
+   (s2p "SECT163R2", 163%Z)].
+
+(* curve = get_call_arg_value("curve") or (len(call_args) > 0 and call_args[0]);  None = Python False *)
+Definition ec_curve (c : ctx) : res (option pyval) :=
+  do v <- get_call_arg_value c (s2p "curve");;
+  if truthy v then Ok (Some v)
+  else do args <- call_args c;;
+       match args with
+       | [] => Ok None
+       | a :: _ => Ok (Some a)
+       end.
+
+(* curve_key_sizes[curve] if curve in curve_key_sizes else 224  (the membership test hashes curve) *)
+Definition curve_size (curve : option pyval) : res Z :=
+  match curve with
+  | None => Ok 224%Z
+  | Some v =>
+      if hashable v then
+        match v with
+        | PStr s => Ok (match assoc s curve_key_sizes with Some z => z | None => 224%Z end)
+        | _ => Ok 224%Z
+        end
+      else Raise TypeError
+  end.
+
+Definition cryptography_io_funcs : list (pstr * key_type) :=
+  [(s2p "cryptography.hazmat.primitives.asymmetric.dsa.generate_private_key", DSA);
+   (s2p "cryptography.hazmat.primitives.asymmetric.rsa.generate_private_key", RSA);
+   (s2p "cryptography.hazmat.primitives.asymmetric.ec.generate_private_key", EC)].
+Definition pycrypto_funcs : list (pstr * key_type) :=
+  [(s2p "Crypto.PublicKey.DSA.generate", DSA); (s2p "Crypto.PublicKey.RSA.generate", RSA);
+   (s2p "Cryptodome.PublicKey.DSA.generate", DSA); (s2p "Cryptodome.PublicKey.RSA.generate", RSA)].
+
+Definition func_key_type (tab : list (pstr * key_type)) (c : ctx) : option key_type :=
+  match c_qualname c with Some q => assoc q tab | None => None end.
+
+Definition arg_position (kt : key_type) : nat := match kt with RSA => 1 | _ => 0 end.
+
+Definition weak_crypto_key_size_cryptography_io (c : ctx) (cfg : jv) : res (option rissue) :=
+  match func_key_type cryptography_io_funcs c with
+  | Some EC =>
+      do curve <- ec_curve c;;
+      do ks <- curve_size curve;;
+      classify_key_size cfg EC (PInt ks)
+  | Some kt =>
+      do ks <- key_size_of c (s2p "key_size") (arg_position kt);;
+      classify_key_size cfg kt ks
+  | None => Ok None
+  end.
+
+Definition weak_crypto_key_size_pycrypto (c : ctx) (cfg : jv) : res (option rissue) :=
+  match func_key_type pycrypto_funcs c with
+  | Some kt =>
+      do ks <- key_size_of c (s2p "bits") 0;;
+      classify_key_size cfg kt ks
+  | None => Ok None
+  end.
+
+Definition weak_cryptographic_key (c : ctx) (cfg : jv) : res (option rissue) :=
+  do r <- weak_crypto_key_size_cryptography_io c cfg;;
+  match r with
+  | Some i => Ok (Some i)
+  | None => weak_crypto_key_size_pycrypto c cfg
+  end.
+
+(* ------------------------------------------------------------------------------------------------ *)
+(* B502 / B503 / B504 insecure_ssl_tls                                                               *)
+(* ------------------------------------------------------------------------------------------------ *)
+
+Definition get_bad_proto_versions (cfg : jv) : res jv := cfg_item cfg (s2p "bad_protocol_versions").
+
+(* check_call_arg_value(name, <config value>): a non-list value is wrapped into a one-element list *)
+Definition cfg_values (bad : jv) : list jv := match bad with JList l => l | _ => [bad] end.
+Definition check_call_arg_cfg (c : ctx) (name : pstr) (bad : jv) : res (option bool) :=
+  do v <- get_call_arg_value c name;;
+  match v with
+  | PNone => Ok None
+  | _ => Ok (Some (existsb (pv_eq_jv v) (cfg_values bad)))
+  end.
+
+Definition ssl_issue (sev conf : rank) (text : pstr) (l : option Z) : rissue :=
+  RIssue sev conf 327 text l None None None.
+
+Definition txt_wrap_socket_bad : pstr :=
+  s2p "ssl.wrap_socket call with insecure SSL/TLS protocol version identified, security issue.".
+Definition txt_context_bad : pstr :=
+  s2p "SSL.Context call with insecure SSL/TLS protocol version identified, security issue.".
+Definition txt_other_bad : pstr :=
+  s2p "Function call with insecure SSL/TLS protocol identified, possible security issue.".
+Definition txt_default_bad : pstr :=
+  s2p "Function definition identified with insecure SSL/TLS protocol version by default, possible security issue.".
+Definition txt_no_version : pstr :=
+  s2p "ssl.wrap_socket call with no SSL/TLS protocol version specified, the default SSLv23 could be insecure, possible security issue.".
+
+Definition q_wrap_socket : pstr := s2p "ssl.wrap_socket".
+Definition q_ssl_context : pstr := s2p "pyOpenSSL.SSL.Context".
+
+Definition ssl_with_bad_version (c : ctx) (cfg : jv) : res (option rissue) :=
+  do bad <- get_bad_proto_versions cfg;;
+  if qual_is c q_wrap_socket then
+    do r <- check_call_arg_cfg c (s2p "ssl_version") bad;;
+    if is_true r
+    then Ok (Some (ssl_issue HIGH HIGH txt_wrap_socket_bad (get_lineno_for_call_arg c (s2p "ssl_version"))))
+    else Ok None
+  else if qual_is c q_ssl_context then
+    do r <- check_call_arg_cfg c (s2p "method") bad;;
+    if is_true r
+    then Ok (Some (ssl_issue HIGH HIGH txt_context_bad (get_lineno_for_call_arg c (s2p "method"))))
+    else Ok None
+  else
+    do r1 <- check_call_arg_cfg c (s2p "method") bad;;
+    do r <- (if is_true r1 then Ok true
+             else do r2 <- check_call_arg_cfg c (s2p "ssl_version") bad;; Ok (is_true r2));;
+    if r then
+      let l := match get_lineno_for_call_arg c (s2p "method") with
+               | Some l => Some l
+               | None => get_lineno_for_call_arg c (s2p "ssl_version")
+               end in
+      Ok (Some (ssl_issue MEDIUM MEDIUM txt_other_bad l))
+    else Ok None.
+
+(* val in bad_ssl_versions, for a str val *)
+Definition in_cfg (val : pstr) (bad : jv) : res bool :=
+  match bad with
+  | JList l => Ok (existsb (fun j => match j with JStr s => pstr_eqb val s | _ => false end) l)
+  | JStr s => Ok (contains s val)
+  | JDict kv => Ok (existsb (fun p => pstr_eqb val (fst p)) kv)
+  | _ => Raise TypeError
+  end.
+
+Fixpoint first_bad_default (bad : jv) (ds : list pstr) : res bool :=
+  match ds with
+  | [] => Ok false
+  | d :: t => do b <- in_cfg (last (split_on dot d) []) bad;;
+              if b then Ok true else first_bad_default bad t
+  end.
+
+Definition ssl_with_bad_defaults (c : ctx) (cfg : jv) : res (option rissue) :=
+  do bad <- get_bad_proto_versions cfg;;
+  do b <- first_bad_default bad (function_def_defaults_qual c);;
+  if b then Ok (Some (ssl_issue MEDIUM MEDIUM txt_default_bad None)) else Ok None.
+
+Definition ssl_with_no_version (c : ctx) : res (option rissue) :=
+  if qual_is c q_wrap_socket then
+    do r <- check_call_arg_value c (s2p "ssl_version") [PNone];;
+    if is_none r
+    then Ok (Some (ssl_issue LOW MEDIUM txt_no_version (get_lineno_for_call_arg c (s2p "ssl_version"))))
+    else Ok None
+  else Ok None.
+
+(* ------------------------------------------------------------------------------------------------ *)
+(* B501 request_with_no_cert_validation, B113 request_without_timeout                                *)
+(* ------------------------------------------------------------------------------------------------ *)
+
+Definition http_verbs : list pstr :=
+  [s2p "get"; s2p "options"; s2p "head"; s2p "post"; s2p "put"; s2p "patch"; s2p "delete"].
+Definition httpx_attrs : list pstr :=
+  [s2p "request"; s2p "stream"; s2p "Client"; s2p "AsyncClient"] ++ http_verbs.
+
+(* context.call_function_name_qual.split(".")[0] *)
+Definition qual_head (c : ctx) : res pstr :=
+  match c_qualname c with
+  | Some q => Ok (hd [] (split_on dot q))
+  | None => Raise AttributeError
+  end.
+
+Definition is_requests_call (c : ctx) (h : pstr) : bool :=
+  pstr_eqb h (s2p "requests") && name_in c http_verbs.
+Definition is_httpx_call (c : ctx) (h : pstr) : bool :=
+  pstr_eqb h (s2p "httpx") && name_in c httpx_attrs.
+
+Definition verify_issue (h : pstr) (l : option Z) : rissue :=
+  RIssue HIGH HIGH 295
+         (s2p "Call to " ++ h ++ s2p " with verify=False disabling SSL certificate checks, security issue.")
+         l None None None.
+
+Definition request_with_no_cert_validation (c : ctx) : res (option rissue) :=
+  do h <- qual_head c;;
+  if is_requests_call c h || is_httpx_call c h then
+    do r <- check_call_arg_value c (s2p "verify") [PStr (s2p "False")];;
+    if is_true r then Ok (Some (verify_issue h (get_lineno_for_call_arg c (s2p "verify")))) else Ok None
+  else Ok None.
+
+Definition timeout_issue (text : pstr) : rissue := RIssue MEDIUM LOW 400 text None None None None.
+Definition txt_without_timeout (h : pstr) : pstr := s2p "Call to " ++ h ++ s2p " without timeout".
+Definition txt_timeout_none (h : pstr) : pstr := s2p "Call to " ++ h ++ s2p " with timeout set to None".
+
+Definition request_without_timeout (c : ctx) : res (option rissue) :=
+  do h <- qual_head c;;
+  do first <- (if is_requests_call c h then
+                 do r <- check_call_arg_value c (s2p "timeout") [PNone];;
+                 Ok (is_none r)
+               else Ok false);;
+  if first then Ok (Some (timeout_issue (txt_without_timeout h)))
+  else if is_requests_call c h || is_httpx_call c h then
+    do r <- check_call_arg_value c (s2p "timeout") [PStr (s2p "None")];;
+    if is_true r then Ok (Some (timeout_issue (txt_timeout_none h))) else Ok None
+  else Ok None.
+
+(* ------------------------------------------------------------------------------------------------ *)
+(* B507 ssh_no_host_key_verification                                                                 *)
+(* ------------------------------------------------------------------------------------------------ *)
+
+Definition policy_argument_value (a : node) : option pstr :=
+  if is_cls "Attribute" a then Some (attr_of a)
+  else if is_cls "Name" a then Some (name_id a)
+  else if is_cls "Call" a then
+    let f := field "func" a in
+    if is_cls "Attribute" f then Some (attr_of f)
+    else if is_cls "Name" f then Some (name_id f)
+    else None
+  else None.
+
+Definition bad_policies : list pstr := [s2p "AutoAddPolicy"; s2p "WarningPolicy"].
+Definition s_set_policy : pstr := s2p "set_missing_host_key_policy".
+
+Definition hostkey_issue (l : option Z) : rissue :=
+  RIssue HIGH MEDIUM 295
+         (s2p "Paramiko call with policy set to automatically trust the unknown host key.")
+         l None None None.
+
+Definition ssh_no_host_key_verification (c : ctx) : res (option rissue) :=
+  if is_module_imported_like c (s2p "paramiko") && name_in c [s_set_policy] then
+    match field_opt "args" (c_node c) with
+    | None => Raise AttributeError
+    | Some args =>
+        match items args with
+        | [] => Ok None
+        | a :: _ =>
+            match policy_argument_value a with
+            | Some v => if mem_pstr v bad_policies
+                        then Ok (Some (hostkey_issue (get_lineno_for_call_arg c s_set_policy)))
+                        else Ok None
+            | None => Ok None
+            end
+        end
+    end
+  else Ok None.
+
+(* ------------------------------------------------------------------------------------------------ *)
+(* B508 / B509 snmp_security_check                                                                   *)
+(* ------------------------------------------------------------------------------------------------ *)
+
+(* check_call_arg_value(name, <int>): Python's == between the literal value and an int *)
+Definition check_call_arg_int (c : ctx) (name : pstr) (z : Z) : res (option bool) :=
+  do v <- get_call_arg_value c name;;
+  match v with
+  | PNone => Ok None
+  | _ => Ok (Some (pv_eq_Z v z))
+  end.
+
+Definition snmp_version_issue (l : option Z) : rissue :=
+  RIssue MEDIUM HIGH 319
+         (s2p "The use of SNMPv1 and SNMPv2 is insecure. You should use SNMPv3 if able.")
+         l None None None.
+Definition snmp_crypto_issue (l : option Z) : rissue :=
+  RIssue MEDIUM HIGH 319
+         (s2p "You should not use SNMPv3 without encryption. noAuthNoPriv & authNoPriv is insecure")
+         l None None None.
+
+Definition q_community_data : pstr := s2p "pysnmp.hlapi.CommunityData".
+Definition q_usm_user_data : pstr := s2p "pysnmp.hlapi.UsmUserData".
+
+Definition snmp_insecure_version_check (c : ctx) : res (option rissue) :=
+  if qual_is c q_community_data then
+    do r0 <- check_call_arg_int c (s2p "mpModel") 0;;
+    do r <- (if is_true r0 then Ok true
+             else do r1 <- check_call_arg_int c (s2p "mpModel") 1;; Ok (is_true r1));;
+    if r then Ok (Some (snmp_version_issue (get_lineno_for_call_arg c (s2p "CommunityData"))))
+    else Ok None
+  else Ok None.
+
+Definition snmp_crypto_check (c : ctx) : res (option rissue) :=
+  if qual_is c q_usm_user_data then
+    match call_args_count c with
+    | None => Raise TypeError
+    | Some n => if Nat.ltb n 3
+                then Ok (Some (snmp_crypto_issue (get_lineno_for_call_arg c (s2p "UsmUserData"))))
+                else Ok None
+    end
+  else Ok None.
+
+(* ------------------------------------------------------------------------------------------------ *)
+(* registry                                                                                          *)
+(* ------------------------------------------------------------------------------------------------ *)
+
+Definition ssl_default_cfg : jv :=
+  JDict [(s2p "bad_protocol_versions",
+          JList (map (fun s => JStr (s2p s))
+                     ["PROTOCOL_SSLv2"; "SSLv2_METHOD"; "SSLv23_METHOD"; "PROTOCOL_SSLv3";
+                      "PROTOCOL_TLSv1"; "SSLv3_METHOD"; "TLSv1_METHOD"; "PROTOCOL_TLSv1_1";
+                      "TLSv1_1_METHOD"]))].
+
+Definition crypto_plugins : list plugin :=
+  [Plugin (s2p "hashlib_insecure_functions") (fun _ c => hashlib c);
+   Plugin (s2p "weak_cryptographic_key") (fun cfg c => weak_cryptographic_key c cfg);
+   Plugin (s2p "ssl_with_bad_version") (fun cfg c => ssl_with_bad_version c cfg);
+   Plugin (s2p "ssl_with_bad_defaults") (fun cfg c => ssl_with_bad_defaults c cfg);
+   Plugin (s2p "ssl_with_no_version") (fun _ c => ssl_with_no_version c);
+   Plugin (s2p "request_with_no_cert_validation") (fun _ c => request_with_no_cert_validation c);
+   Plugin (s2p "request_without_timeout") (fun _ c => request_without_timeout c);
+   Plugin (s2p "ssh_no_host_key_verification") (fun _ c => ssh_no_host_key_verification c);
+   Plugin (s2p "snmp_insecure_version") (fun _ c => snmp_insecure_version_check c);
+   Plugin (s2p "snmp_weak_cryptography") (fun _ c => snmp_crypto_check c)].
